@@ -11,4 +11,5 @@ let table = [
   "poll", Poll.accept;
   "chain", Chain.accept;
   "qgauge", QGauge.accept;
+  "refs", Refs.accept;
 ]
